@@ -289,9 +289,11 @@ func (m *Monitors) onRound(n *Node, r Round) {
 func (m *Monitors) stepInvariants(n *Node, pre Pre) {
 	nm := m.per[n.Idx]
 	h, v := n.H(), n.V()
-	// heights the node had a term for during this step: the one it started in, every height it started a round for, the final one
-	termHeights := map[uint64]bool{pre.H: true, h: true}
-	for _, r := range n.Rounds[pre.RoundsLen:] {
+	// heights the node has (had) a term for: those it reported a new consensus round for - the round callback comes before the term
+	// sees any message. (The state's height alone is not enough: a node whose height moved without a term being started for it
+	// still has the previous height's term installed.)
+	termHeights := map[uint64]bool{}
+	for _, r := range n.Rounds {
 		termHeights[r.H] = true
 	}
 	if h < pre.H || (h == pre.H && v < pre.V) {
